@@ -7,7 +7,7 @@ from sa.astx import call_attr, call_name, dotted, src, statements, walk_local
 from sa.domains import fmt_set, replace_chain
 from sa.selftest import Mutant, Silent
 from sa.source import AnalysisError
-from sa.props._lib_i import NotPure, Raised, eval_block, flat_bytes, module_env, peval
+from sa.props._lib_i import sect, NotPure, Raised, eval_block, flat_bytes, module_env, peval
 
 PROPERTY = "C41"
 SMTP = "mail/smtp.py"
@@ -365,10 +365,14 @@ def _check_utf7_decoder(ctx):
 
 
 def check(ctx):
-    _check_xtext(ctx)
-    _check_utf7_encoder(ctx)
-    _check_b64_helpers(ctx)
-    _check_utf7_decoder(ctx)
+    with sect(ctx, "xtext"):
+        _check_xtext(ctx)
+    with sect(ctx, "utf-7 encoder"):
+        _check_utf7_encoder(ctx)
+    with sect(ctx, "modified base64 helpers"):
+        _check_b64_helpers(ctx)
+    with sect(ctx, "utf-7 decoder"):
+        _check_utf7_decoder(ctx)
 
 
 _XT = '        if o == ord("+") or o == ord("=") or o < 33 or o > 126:\n'
